@@ -517,6 +517,34 @@ def rule_units(ctx, R):
             ok = len(keys) == 1 and keys[0] in ("UNWRAP(PartialOrd::partial_cmp(P2.1,P3.1))", "Ord::cmp(P2.1,P3.1)", "PartialOrd::partial_cmp(P2.1,P3.1)")
         R.check(ok, "units:point:sorted_by_location", "the label table is sorted by command index (ascending) before the single-cursor rewrite sweep: %s %s" % (kind, keys), st_["span"]["at"])
         R.check(bool(rew_blocks) and not any(reaches_without(cfg, [0], rb, cut_blocks=[sb_]) for rb in rew_blocks), "units:point:sort_first", "the sort precedes the rewrite on every path", st_["span"]["at"])
+    # freshness of the block index: `len(BLOCKS) - 1` is the index of the block that holds the command only between
+    # the statement that put the command into its block and the one that opens the next (empty) block.  (Roles do
+    # not see this: the expression reads the same before and after `codes.push(Vec::new())`.)
+    opens, adds = [], []
+    for bi, tt in b.calls():
+        if callee_name(tt["f"], fb) == "std::vec::Vec::push" and not b.blocks[bi]["cleanup"]:
+            k0 = vars_.root_key(tt["args"][0])
+            if k0 == ("L", BL):
+                arg = roles.of_operand(tt["args"][1], bi)
+                r0 = roles.of_operand(tt["args"][0], bi)
+                if r0 == "BLOCKS" and arg in ("VEC", "Vec::new()"):
+                    opens.append(bi)
+                else:
+                    adds.append(bi)
+    uses = []
+    for bi, tt in b.calls():
+        if callee_name(tt["f"], fb) == "std::vec::Vec::push" and vars_.root_key(tt["args"][0]) in [("L", x) for x in [l for l, d in enumerate(b.locals) if d["ty"] == "std::vec::Vec<usize>" and l in b.local_names()]] and roles.of_operand(tt["args"][1], bi) == IDX:
+            uses.append((bi, "command -> block table"))
+    for rb in rew_blocks:
+        uses.append((rb, "label target rewrite"))
+    loops_ = {}
+    for be in cfg.back_edges():
+        loops_.setdefault(be[1], set()).update(cfg.natural_loop(be))
+    if R.anchor(bool(opens) and bool(adds) and bool(uses), "units:fresh:anchors", "where a command is put into a block, where the next block is opened, and where the block index is recorded"):
+        for ub, what in uses:
+            heads_ = [h for h, bl in loops_.items() if ub in bl]
+            stale = [o for o in opens if o != ub and any(reaches_without(cfg, cfg.succ[o], ub, cut_blocks=set(adds) | set(heads_)) for _ in (0,))]
+            R.check(not stale, "units:fresh:%s" % what.replace(" ", "_"), "the block index recorded by the %s is read after the command was put into its block and before the next block is opened" % what, b.blocks[ub]["term"]["span"]["at"] if b.blocks[ub]["term"].get("span") else None)
     # the restored selection
     for t in find("cur = "):
         r = roles.of_origin(t.args[0])
@@ -594,3 +622,11 @@ def rule_fmtpos(ctx, R):
 
 
 RULES += [("C03.FMTPOS", "computed text never lands in the format-string position of an emitted print!/format!-style macro", rule_fmtpos)]
+
+
+def rule_numctor(ctx, R):
+    from . import p_c05
+    return p_c05.rule_ctor(ctx, R)
+
+
+RULES.append(("C03.NUMCTOR", "the number constructor that emitted programs call for every pushed count (Num::from_num -> BigNum::new) keeps every bit and the sign, zero non-negative (shared with C05.CTOR)", rule_numctor))
